@@ -403,6 +403,17 @@ theorem parse_empty_described_partial (ir : DIR) (h : ir.WF = true) (hr : ir.par
     exact (emittedRequired_iff p (List.all_eq_true.mp hwf p hp)).mpr (List.all_eq_true.mp hr p hp)
   rw [this]
 
+/-- `a: Optional[int] = 0`, `b: Optional[str] = None` -/
+def optionalIR : DIR :=
+  { name := ['F'], doc := [], returns := none, params := [
+      { name := ['a'], typ := .optional .int, doc := [], default := some (.int 0) },
+      { name := ['b'], typ := .optional .str, doc := [], default := some .none }] }
+
+/-- non-vacuity of `parse_empty_described_partial`: the hypotheses hold and the described result is a proper namespace
+    (with the falsy default `0` kept) -/
+example : optionalIR.WF = true ∧ optionalIR.params.all requiredAgrees = true ∧
+    describedParseEmpty optionalIR = .ok [(['a'], .one (.int 0)), (['b'], .one .none)] := ⟨by decide, by decide, rfl⟩
+
 /-- **Negation (known finding `C04-argparse-required-despite-default`):** for `x: int = 5` the description promises
     `parse_args([]).x == 5`; the emitted parser exits because `--x` is `required`. -/
 theorem not_parse_empty_full : ¬ C04_parse_empty_full := by
